@@ -8,7 +8,7 @@ from vlib.pyround import to_quantum
 PID = 'C06'
 PROPERTY_FILE = 'Properties/C06.v'
 # generated model parts (translate/) this property's model / proofs really depend on
-GEN_DEPS = ['QuantityImpl']
+GEN_DEPS = ['QuantityImpl', 'AllocImpl']
 MODEL_TARGETS = ['Corr/AllocCorr.vo']
 PROOF_TARGETS = ['Proofs/C06Proofs.vo']
 COQ_HEADER = ("From QV Require Import Model.Num Model.Rounding Model.Quantity "
